@@ -14,6 +14,11 @@ C16 line-protocol driver.
                                                                             → `ok i,j,…|rej|…` one answer per file
   argidx <b|d> <idx> <n>         `{args[idx]}` (b) / `{args.idx}` (d) inside a snippet imported with the
                                  n arguments a0 … a(n-1)                    → `val <hex>` | `kept` | `panic`
+  env <input> <table>            `replaceEnvVars` (the `{$NAME:default}` pass before lexing) under the environment
+                                 <table> = `.` | name:value;…  (hex; the process environment is exactly that)
+                                                                            → `ok <hex>` | `panic` | `fuel`
+  var <text> <n>                 `parseVariadic` on a token with that text and n import arguments
+                                                                            → `no` | `yes <start> <end>`
   perm <text> <seed>             \
   eqv <textA> <textB>             | oracle only, no model answer            → `oracle-only`
   leak <textP> <textT>           /
@@ -27,6 +32,7 @@ import CaddyModel.C16.Stable
 import CaddyModel.C16.LexProps
 import CaddyModel.C16.History
 import CaddyModel.C16.Args
+import CaddyModel.C16.ParseGlue
 
 namespace CaddyModel.C16
 
@@ -150,7 +156,44 @@ def showArgRes : ArgRes → String
   | .kept => "kept"
   | .panic => "panic"
 
+/-! `env`, `var` -/
+
+def envNameOK (k : Bytes) : Bool := !k.isEmpty && !k.contains 61 && !k.contains 0
+
+def parseEnvTable (s : String) : Option (List (Bytes × Bytes)) :=
+  if s == "." then some [] else
+  (s.splitOn ";").mapM fun kv =>
+    match kv.splitOn ":" with
+    | [k, v] =>
+      match hexField k, hexField v with
+      | some kb, some vb => if envNameOK kb && !vb.contains 0 then some (kb, vb) else none
+      | _, _ => none
+    | _ => none
+
+/-- `os.LookupEnv` in a process whose environment is exactly the table (a later `Setenv` of the
+same name overwrites an earlier one) -/
+def envOfTable (l : List (Bytes × Bytes)) : Bytes → Option Bytes :=
+  fun k => (l.reverse.find? (·.1 == k)).map (·.2)
+
+def showEnvRes : EnvRes → String
+  | .done o => "ok " ++ Hex.encode o
+  | .panic => "panic"
+  | .fuel => "fuel"
+
 def handle : List String → String
+  | ["env", inp, table] =>
+    match hexField inp, parseEnvTable table with
+    | some i, some t => showEnvRes (replaceEnvVars (envOfTable t) i)
+    | _, _ => "bad-op"
+  | ["var", text, n] =>
+    match hexField text, canonNat n with
+    | some t, some k =>
+      if k ≤ 9 then
+        match parseVariadic t k with
+        | none => "no"
+        | some (a, b) => "yes " ++ toString a ++ " " ++ toString b
+      else "bad-op"
+    | _, _ => "bad-op"
   | ["hist", files] =>
     match (files.splitOn "/").mapM parseHistFile with
     | some fs => "|".intercalate (answerHist Gen.defaultDirectiveOrder fs)
